@@ -17,8 +17,6 @@
 (*   "index-neg-oob"     negative out-of-bounds integers pass the check    *)
 (*   "nob-badlen"        the wrong-length branch raises NameError          *)
 (*   "spl-str-split"     strings are never split (docstring: 'abc', 3)     *)
-(*   "aob-axis-order"    func / which_boundaries are paired with the       *)
-(*                       POSITION in axis_order, not with the axis         *)
 (*   "aob-size1"         only_once applies both sides of an axis of size 1 *)
 (* With all switches on C must refine A on the bounded instance; with the  *)
 (* switches of the still open findings off TLC has to find the             *)
@@ -26,7 +24,7 @@
 (***************************************************************************)
 EXTENDS NormSem
 
-AllSwitches == {"index-neg-oob", "nob-badlen", "spl-str-split", "aob-axis-order", "aob-size1"}
+AllSwitches == {"index-neg-oob", "nob-badlen", "spl-str-split", "aob-size1"}
 R(o, lf) == [r |-> o, leaf |-> lf]
 Unmodelled == R([k |-> "unmodelled", v |-> 0], "unmodelled")
 IsErrV(x) == x.k = "err"
@@ -190,10 +188,10 @@ C_Dtype(fn, b, shp, dflt) ==
     [] fn \in {"dtype_str", "dtype_repr"} ->
          LET q == IF fn = "dtype_repr" THEN "'" ELSE "" IN
          IF shp # <<>> \/ b \in OtherBases \cup (VagueBases \ {"bool"}) THEN Unmodelled
-         ELSE IF b = "int64" THEN R(Ok(VS(q \o "int" \o q)), "int")
-         ELSE IF b = "float64" THEN R(Ok(VS(q \o "float" \o q)), "float")
-         ELSE IF b = "complex128" THEN R(Ok(VS(q \o "complex" \o q)), "complex")
-         ELSE R(Ok(VS(q \o b \o q)), "other")
+         ELSE IF b = "int64" THEN R(Ok(VTx(q \o "int" \o q)), "int")
+         ELSE IF b = "float64" THEN R(Ok(VTx(q \o "float" \o q)), "float")
+         ELSE IF b = "complex128" THEN R(Ok(VTx(q \o "complex" \o q)), "complex")
+         ELSE R(Ok(VTx(q \o b \o q)), "other")
 
 (* --------------------------------- unique ------------------------------- *)
 RECURSIVE Hashable(_)
@@ -212,8 +210,13 @@ NumIndentsC(line, ind) ==
   LET maxnum == (Len(line) + Len(ind) - 1) \div Len(ind)
       cnt    == Levels(line, ind)
   IN  IF maxnum = 0 THEN 0 ELSE IF cnt >= maxnum THEN maxnum - 1 ELSE cnt
-C_Dedent(lines, ind, maxlv) ==
-  IF Len(ind) = 0 THEN R(Ok(VL([i \in 1..Len(lines) |-> VS(lines[i])])), "empty-indent")
+\* str.splitlines(): a text that ends with a newline (last line empty) loses that last line
+SplitLines(lines) == IF Len(lines) >= 1 /\ lines[Len(lines)] = <<>> THEN SubSeq(lines, 1, Len(lines) - 1) ELSE lines
+C_Indent(lines0, ind) ==
+  LET lines == SplitLines(lines0) IN R(Ok(VL([i \in 1..Len(lines) |-> VS(ind \o lines[i])])), "join")
+C_Dedent(lines0, ind, maxlv) ==
+  LET lines == SplitLines(lines0) IN
+  IF Len(ind) = 0 THEN R(Ok(VL([i \in 1..Len(lines0) |-> VS(lines0[i])])), "empty-indent")
   ELSE IF Len(lines) = 0 THEN R(Err("ValueError"), "no-lines")                \* min() of an empty sequence
   ELSE LET lv0 == MinOf([i \in 1..Len(lines) |-> NumIndentsC(lines[i], ind)])
            lv  == IF maxlv = NONE THEN lv0 ELSE Min2(lv0, maxlv)
@@ -231,7 +234,7 @@ RECURSIVE AobLoopC(_, _, _, _, _, _, _, _, _)
 AobLoopC(vals, slices, shape, funcs, which, order, once, t, fx) ==
   IF t > Len(order) THEN vals
   ELSE LET ax  == order[t]
-           sel == IF "aob-axis-order" \in fx THEN ax ELSE t            \* zip(axis_order, func, which_boundaries)
+           sel == t                                                      \* zip(axis_order, func, which_boundaries)
            fl  == funcs[sel][1]   fr == funcs[sel][2]
            wl  == which[sel][1]   wr == which[sel][2]
            base == IF once = 1 THEN slices ELSE [a \in 1..Len(shape) |-> <<NONE, NONE>>]
@@ -273,6 +276,7 @@ Impl(fn, a, fx) ==
     [] fn = "sic"   -> C_Sic(a.x)
     [] fn = "dtype" -> C_Dtype(a.f, a.base, a.shape, a.dflt)
     [] fn = "unique" -> C_Unique(a.seq)
+    [] fn = "indent" -> C_Indent(a.lines, a.ind)
     [] fn = "dedent" -> C_Dedent(a.lines, a.ind, a.maxlv)
     [] fn = "aob"   -> C_Aob(a.shape, a.vals, a.funcs, a.which, a.order, a.once, fx)
     [] fn = "f1d"   -> C_F1d(a.shape, a.vals, a.vecs, a.axes)
